@@ -13,6 +13,8 @@ harness/writer_fault.cpp runs the real Writer with the real encoders and compres
 encoder / a mock compressor; the observed log must be one of the allowed logs, a reported size must be the file's
 size, the file of a successful close() must read back (osmium::io::Reader) as exactly the objects handed in, and
 after ~Writer all threads are joined and no descriptor is left.  A watchdog reports a deadlock as 'hang'.
+Scripts contain, besides data, an operator()(Buffer) whose buffer the format encodes to nothing ('nul': only an Area or a bare
+TagList): the empty string is the end-of-data marker of the output queue, so such a block must never travel through it (F08b).
 Code -> spec: the executions are also recorded (queue hooks, WriteThread hooks, API results) and TLC validates each
 recorded execution against specs/WriterPipelineTrace.tla (all invariants evaluated along the way)."""
 import json
@@ -25,7 +27,7 @@ import vlib
 
 LEVEL = "model_checking"
 
-ACTIONS = ["UCall", "UHdr", "UChk", "UBlkI", "UBlkB", "UAdd", "UThrow", "UEnd", "UClosed", "UEod", "UXPush", "UPushChk",
+ACTIONS = ["UCall", "UHdr", "UChk", "UBlkI", "UBlkB", "UBlkN", "UAdd", "UThrow", "UEnd", "UClosed", "UEod", "UXPush", "UPushChk",
            "UPushEnq", "UGet", "URetOk", "URetExc", "UJoin", "Worker", "WPopChk", "WWait", "WGet", "WWrite", "WCClose",
            "WSetVal", "WCatch1", "WCatch2", "WShut0", "WShut1", "WDtor"]
 
@@ -79,6 +81,14 @@ def design(ctx):
         raise vlib.ModelFailure("negative control failed: the as-shipped compressor model (fdfix = FALSE) no longer violates NoFdLeft: %s"
                                 % (r.error or r.violation or "no violation")[:800])
     ctx.extra["negative_control"] = "as-shipped compressor model (descriptor not closed when gzclose_w/fsync fail) violates NoFdLeft, as the real code did (F08a)"
+    # negative control: as shipped before 646d69f (emptyfix = FALSE) a block that is encoded as the empty string is taken for the
+    # end marker by the write thread: close() reports success for a truncated file
+    r = vlib.tlc("MCWriterPipeline", "MCWP_shipped_empty.cfg", workers=2, timeout=600, tag="MCWP_shipped_empty", extra=["-noGenerateSpecTE"])
+    if r.error or not (r.violation and "CompleteOrThrows" in r.violation):
+        raise vlib.ModelFailure("negative control failed: the as-shipped model (emptyfix = FALSE) no longer violates CompleteOrThrows: %s"
+                                % (r.error or r.violation or "no violation")[:800])
+    ctx.extra["negative_control_empty_block"] = ("as-shipped model (a block encoded as the empty string travels through the queue and is taken for "
+                                                 "the end marker) violates CompleteOrThrows, as the real code did (F08b)")
 
 
 def export(ctx, family):
@@ -140,7 +150,7 @@ def real_cases(ctx, exported, rnd, nseeds, budget):
         if k == "fsync" and not cfg["fsync"]:
             continue
         pool.append((e, fmt, comp))
-    key = lambda t: (t[1], t[2], fault_key(t[0]["cfg"]), t[0]["cfg"]["fsync"])
+    key = lambda t: (t[1], t[2], fault_key(t[0]["cfg"]), t[0]["cfg"]["fsync"], "nul" in t[0]["cfg"]["script"])
     chosen = sample([t for t in pool if t[0]["cfg"]["fault"]["k"] == "write"], budget // 2, rnd, key) + \
         sample([t for t in pool if t[0]["cfg"]["fault"]["k"] != "write"], budget // 2, rnd, key)
     for i, (e, fmt, comp) in enumerate(chosen):
@@ -163,6 +173,15 @@ def real_cases(ctx, exported, rnd, nseeds, budget):
         for j, inst in enumerate(insts):
             out.append(mk_case("real-%d-%d" % (i, j), "real", e, fmt, comp, inst or {}, rnd, nseeds, nobj))
     return out
+
+
+def empty_cases(ctx, exported, rnd, nseeds, budget):
+    """F08b: scripts with a buffer the format encodes to nothing ('nul': only an Area / a bare TagList), without any other
+    fault, for every format x compression x fsync: data handed in after it must be in the file, or a call must throw"""
+    pool = [e for e in exported if "nul" in e["cfg"]["script"] and e["cfg"]["fault"]["k"] == "none"]
+    chosen = sample(pool, budget, rnd, key=lambda e: (fmt_of(e["cfg"]), e["cfg"]["comp"], e["cfg"]["fsync"]))
+    return [mk_case("empty-%d" % i, "real", e, fmt_of(e["cfg"]), e["cfg"]["comp"], {}, rnd, nseeds, rnd.choice([1, 3, 120]))
+            for i, e in enumerate(chosen)]
 
 
 def mock_cases(ctx, exported, rnd, nseeds, budget):
@@ -414,7 +433,9 @@ def finish(ctx, cases, stats):
         "'write fails at unit 0' (a superset for later offsets), offsets in the tail that is only produced while closing (gzip CRC/ISIZE, "
         "bzip2 end-of-stream, </osm>) use 'last unit' (only close() may throw), offsets >= size use 'no fault reached'",
         "queue interface as verified by C19 (ThreadQueue.tla); real queue bounds are >= 2 (the library clamps), the model also covers 1",
-        "PBF is modelled for inputs of less than one primitive block (the data blob is handed over in write_end)"]
+        "PBF is modelled for inputs of less than one primitive block (the data blob is handed over in write_end)",
+        "objects a format cannot represent (an Area, a bare TagList: script op 'nul') are skipped by its encoder and are not part of "
+        "'the objects handed to the Writer'; what is checked is that such a buffer does not end the file (F08b)"]
 
 
 def run(ctx):
@@ -433,6 +454,7 @@ def run(ctx):
     nseeds = 2 if quick else 3
     cases = real_cases(ctx, real, rnd, nseeds, 560 if quick else 5000)
     cases += mock_cases(ctx, mock, rnd, nseeds, 160 if quick else 2500)
+    cases += empty_cases(ctx, real, rnd, nseeds, 240 if quick else 1500)
     cases += big_cases(ctx, real, rnd, nseeds)
     cases += sweep_cases(ctx, real, rnd, binary, workdir)
     # the recorded executions of a seeded part of the cases are validated by TLC (quick: a third, thorough: a fifth,
